@@ -90,7 +90,9 @@ def gen_model_spec(rng, kn, attr, states, events):
                  ['may_' + e for e in events] + ['trigger', 'may_trigger', 'other', 'helper'])
         for n in rng.sample(cands, min(len(cands), rng.randint(1, 4))):
             level = rng.choice(['cls', 'cls', 'inst'])
-            kind = rng.choice(['method', 'method', 'int', 'none']) if level == 'cls' else rng.choice(['int', 'func', 'none'])
+            # falsy but defined values (False, 0, '', (), []) are attributes like any other; only None is not judged
+            kind = rng.choice(['method', 'method', 'int', 'none', 'false', 'zero', 'empty']) if level == 'cls' \
+                else rng.choice(['int', 'func', 'none', 'false', 'zero', 'empty'])
             if n not in [x[0] for x in spec]:
                 spec.append([n, level, kind])
     if rng.random() < 0.1:
@@ -212,20 +214,37 @@ def _mk_func(n):
     return user_func
 
 
+def user_value(kind, n, idx, i):
+    """the value of a pre-existing attribute of the given kind"""
+    if kind == 'method':
+        return _mk_method(n)
+    if kind == 'func':
+        return _mk_func(n)
+    if kind == 'none':
+        return None
+    if kind == 'false':
+        return False
+    if kind == 'zero':
+        return 0
+    if kind == 'empty':
+        return [(), '', []][(idx + i) % 3]
+    return UserValue((idx, i))
+
+
 def make_model(spec, idx):
     """build a fresh class + instance from a model spec; returns (obj, originals {name: (level, kind, value)})"""
     ns = {}
     originals = {}
     for i, (n, level, kind) in enumerate(spec):
         if level == 'cls':
-            v = _mk_method(n) if kind == 'method' else None if kind == 'none' else UserValue((idx, i))
+            v = user_value(kind, n, idx, i)
             ns[n] = v
             originals[n] = (level, kind, v)
     cls = type('Model%d' % idx, (object,), ns)
     obj = cls()
     for i, (n, level, kind) in enumerate(spec):
         if level == 'inst':
-            v = _mk_func(n) if kind == 'func' else None if kind == 'none' else UserValue((idx, i))
+            v = user_value(kind, n, idx, i)
             obj.__dict__[n] = v
             originals[n] = (level, kind, v)
     return obj, originals
